@@ -25,9 +25,6 @@ structure After (doc : Bytes) (md : Nat) (pos depth : Nat) (st : PState) : Prop 
 
 theorem GT_not_mem_name {n : Bytes} (h : NameOk n) : GT ∉ n := (name_not_mem h).2.1
 
-theorem idxOf_at {c : UInt8} {a t : Bytes} (h : c ∉ a) : idxOf c (a ++ c :: t) = some a.length := by
-  rw [idxOf_append_of_not_mem h, idxOf_cons_self]; simp
-
 theorem renderKids_cons_text (b : Bytes) (ts : List Tree) : renderKids (.text b :: ts) = b ++ renderKids ts := by
   simp [renderKids, toksL, Tree.toks, renderToks, renderToks_append, Tok.render]
 
